@@ -73,6 +73,29 @@ DATA = [
     sym('bytes3', lambda l: L.data('bytes 1 2 3', b'\x01\x02\x03')),
     sym('str', lambda l: L.data('string abc', b'abc')),
 ]
+# every data item kind with a size that must agree between the first (pessimistic) pass and the emitted bytes
+DATA_ALL = DATA + [
+    sym('strU', lambda l: L.data('string h\u00e9\u20ac\u65e5', 'h\u00e9\u20ac\u65e5'.encode('utf-8'))),            # non-ASCII: 1 + 2 + 3 + 3 bytes
+    sym('strE', lambda l: L.data('string a\\nb\\x41', b'a\nbA')),                                                 # escapes shrink the text
+    sym('str2', lambda l: L.data('string   two  words # kept', b'  two  words # kept')),
+    sym('bytes1', lambda l: L.data('bytes 7', b'\x07')),
+    sym('shorts1', lambda l: L.data('shorts 0x1234', b'\x34\x12')),
+    sym('ints1', lambda l: L.data('ints 1 -2', b'\x01\0\0\0\xfe\xff\xff\xff')),
+    sym('longs1', lambda l: L.data('longs 1', b'\x01\0\0\0')),
+    sym('longs3', lambda l: L.data('longs 1 2 3', b'\x01\0\0\0\x02\0\0\0\x03\0\0\0')),
+    sym('longlongs1', lambda l: L.data('longlongs 5', b'\x05' + b'\0' * 7)),
+    sym('dd', lambda l: L.data('dd 0x1122334455667788', bytes.fromhex('8877665544332211'))),
+    sym('dbneg', lambda l: L.data('db -1', b'\xff')),
+    sym('packB', lambda l: L.data('pack <B 7', b'\x07')),
+    sym('packh', lambda l: L.data('pack >h -2', b'\xff\xfe')),
+    sym('packI', lambda l: L.data('pack <I 0x11223344', bytes.fromhex('44332211'))),
+    sym('packl', lambda l: L.data('pack <l -1', b'\xff' * 4)),
+    sym('packL', lambda l: L.data('pack >L 1', b'\0\0\0\x01')),
+    sym('packq', lambda l: L.data('pack <q -1', b'\xff' * 8)),
+    sym('packQ', lambda l: L.data('pack >Q 1', b'\0' * 7 + b'\x01')),
+    sym('incb', lambda l: L.data('include_bytes blob3.bin', bytes([0xa0, 0xa1, 0xa2]))),
+    sym('incb8', lambda l: L.data('include_bytes blob8.bin', bytes(0xa0 + i for i in range(8)))),
+]
 ALIGN = [sym('al2', lambda l: L.align(2)), sym('al4', lambda l: L.align(4)), sym('al8', lambda l: L.align(8))]
 DEF = sym('def', lambda l: L.label(l), 'def')
 
